@@ -241,6 +241,12 @@ class StmtExec(Exec):
                 has, setf = d.ty.fn("has"), d.ty.fn("set")
                 self.assign_to(tgt.func.value, V(d.ty, z3.If(has(d.t, k), setf(d.t, k, coerce(nv, d.ty.val).t), d.t)), st)
                 continue
+            if isinstance(tgt, ast.Call):
+                inner = self.resolve_contract(tgt.func, st)
+                if inner is not None and getattr(inner, "fresh_result", False):
+                    # f(g(x)) where g's contract says its result is a fresh object: the mutation dies with the temporary
+                    continue
+                raise Unsupported("a callee modifies an argument that is the result of a call (line %d)" % node.lineno)
             self.assign_to(tgt, nv, st)
         return out
 
